@@ -18,6 +18,18 @@ func ZZ_C20_edsFamilies() {
 		Name: "foo", Namespace: "ns", Labels: map[string]string{"extendeddaemonset.datadoghq.com/name": nondet.String("label", "foo", "bar")},
 		CreationTimestamp: metav1.NewTime(nondet.TimeSec("created", -86400, 0)),
 	}}
+	// the annotations may say something else than the status (frozen wins over paused in the state,
+	// a canary hides both, the status may not have caught up yet): the series follow the status
+	ds.Annotations = map[string]string{}
+	if nondet.Bool("ann.rollingUpdatePaused") {
+		ds.Annotations[datadoghqv1alpha1.ExtendedDaemonSetRollingUpdatePausedAnnotationKey] = "true"
+	}
+	if nondet.Bool("ann.rolloutFrozen") {
+		ds.Annotations[datadoghqv1alpha1.ExtendedDaemonSetRolloutFrozenAnnotationKey] = "true"
+	}
+	if nondet.Bool("ann.canaryPaused") {
+		ds.Annotations[datadoghqv1alpha1.ExtendedDaemonSetCanaryPausedAnnotationKey] = "true"
+	}
 	st := &ds.Status
 	st.Desired = nondet.Int32("desired", 0, 1<<31-1)
 	st.Current = nondet.Int32("current", 0, 1<<31-1)
